@@ -66,6 +66,10 @@ pub struct Cfg {
 	/// limit in milliseconds of the REAL clock - the server measures it with std::time::Instant -, max_failures)
 	#[serde(default)]
 	pub ping_fine: Option<(u64, u64, usize)>,
+	/// which public entry point `http_post_e` / `ws_e` go through: 0 = the TowerService, 1 = the low-level
+	/// `http::call_with_service_builder` / `ws::connect`
+	#[serde(default)]
+	pub entry: u8,
 	/// build every per-connection service through `TowerServiceBuilder::set_http_middleware` (identity middleware)
 	#[serde(default)]
 	pub via_set_http_middleware: bool,
@@ -73,7 +77,7 @@ pub struct Cfg {
 
 impl Default for Cfg {
 	fn default() -> Self {
-		Cfg { max_request: 10 * 1024 * 1024, max_response: 10 * 1024 * 1024, max_connections: 100, max_subs: 1024, batch: BatchCfg::Unlimited, buffer_capacity: 1024, mode: 0, ping: None, ping_fine: None, via_set_http_middleware: false }
+		Cfg { max_request: 10 * 1024 * 1024, max_response: 10 * 1024 * 1024, max_connections: 100, max_subs: 1024, batch: BatchCfg::Unlimited, buffer_capacity: 1024, mode: 0, ping: None, ping_fine: None, entry: 0, via_set_http_middleware: false }
 	}
 }
 
@@ -571,6 +575,16 @@ impl Fixture {
 
 	pub async fn http_post(&self, body: &[u8]) -> HttpResp {
 		self.http(HttpReq::post_json(body)).await
+	}
+
+	/// POST through the entry point chosen by `Cfg::entry`
+	pub async fn http_post_e(&self, body: &[u8]) -> HttpResp {
+		if self.cfg.entry == 1 { self.http_lowlevel(HttpReq::post_json(body)).await } else { self.http_post(body).await }
+	}
+
+	/// WebSocket session through the entry point chosen by `Cfg::entry`
+	pub async fn ws_e(&self) -> Result<WsPeer, String> {
+		if self.cfg.entry == 1 { self.ws_lowlevel().await } else { self.ws().await }
 	}
 
 	/// Open a WebSocket session served by the real hyper connection + upgrade path over an in-memory duplex.
